@@ -1346,3 +1346,39 @@ Proof.
   rewrite firstn_app, Nat.sub_diag, firstn_all, firstn_O, app_nil_r.
   rewrite skipn_app, Nat.sub_diag, skipn_all. simpl. auto.
 Qed.
+
+(* ---------- panicking callbacks ---------- *)
+(* the slots in use are (tasks started) - (tasks ended), whatever ended them: a panic leaks no slot *)
+Definition starts (tr : list rev) : nat := length (filter (fun e => match e with RStart => true | _ => false end) tr).
+Definition ends (tr : list rev) : nat := length (filter (fun e => match e with RStart => false | _ => true end) tr).
+Definition calm (e : rev) : rev := match e with RFinish _ => RFinish false | e => e end.
+
+Lemma rstep_calm limit s e : rstep limit s (calm e) = rstep limit s e.
+Proof. destruct s as [n|], e as [|b]; reflexivity. Qed.
+
+Lemma fold_left_none limit tr : fold_left (rstep limit) tr None = None /\ True.
+Proof. split; [|exact Logic.I]. induction tr as [|e r IH]; simpl; [reflexivity|assumption]. Qed.
+
+Lemma rrun_calm_from limit tr : forall s, fold_left (rstep limit) (map calm tr) s = fold_left (rstep limit) tr s.
+Proof. induction tr as [|e r IH]; intro s; simpl; [reflexivity|]. rewrite rstep_calm. apply IH. Qed.
+
+Lemma rrun_count_from limit tr : forall n m, fold_left (rstep limit) tr (Some n) = Some m -> m + ends tr = n + starts tr.
+Proof.
+  induction tr as [|e r IH]; intros n m H; simpl in *.
+  - inversion H. unfold starts, ends; simpl. lia.
+  - destruct e as [|b]; simpl in H.
+    + destruct (n <? limit); [|rewrite (proj1 (fold_left_none limit r)) in H; discriminate].
+      apply IH in H. unfold starts, ends in *; simpl. lia.
+    + destruct n as [|n']; [rewrite (proj1 (fold_left_none limit r)) in H; discriminate|].
+      apply IH in H. unfold starts, ends in *; simpl. lia.
+Qed.
+
+Lemma runner_no_leak limit tr n : rrun limit tr = Some n ->
+  rrun limit (map calm tr) = Some n /\ n + ends tr = starts tr /\
+  (ends tr = starts tr -> 0 < limit -> rrun limit (tr ++ [RStart]) = Some 1).
+Proof.
+  intro H. unfold rrun in *. split; [rewrite rrun_calm_from; assumption|].
+  pose proof (rrun_count_from limit tr 0 n H) as E. split; [lia|].
+  intros He Hl. rewrite fold_left_app, H. simpl. assert (n = 0) by lia. subst n.
+  destruct (Nat.ltb_spec 0 limit); [reflexivity|lia].
+Qed.
